@@ -321,6 +321,12 @@ func scriptedSeqs(r *evid.Run) []SeqCase {
 					Op{Kind: "ticket", SPN: "known"}, Op{Kind: "ticket", SPN: "unknown"})
 			}
 		}
+		// the KDC's hints ask for an iteration count outside what the client accepts: a password client refuses; then a normal login
+		for fi, f := range []string{"s2k-2-24", "s2k-zero", "s2k-max"} {
+			if quickSlice(fi) || ei%2 == 0 {
+				add(et, fi%2 == 0, false, Op{Kind: "new-client", Cred: "pw", PA: fi == 1}, Op{Kind: "login", Fault: "AS:" + f}, Op{Kind: "ticket", SPN: "known", Fault: "AS:" + f}, Op{Kind: "login"}, Op{Kind: "destroy"})
+			}
+		}
 		i := 0
 		for _, f := range kdcFaults {
 			for _, ex := range []string{"AS", "TGS"} {
